@@ -729,13 +729,13 @@ Section S.
           unfold dstep in Hcl. rewrite Hd in Hcl. exact Hcl.
   Qed.
   (* ---------------- remove_unreachable_states ---------------- *)
-  (* NoDup (map fst (dD D)) is needed for dfa_wf D': see remove_unreachable_needs_unique_keys below *)
-  Theorem remove_unreachable_correct (D : dfa A) : dfa_wf D -> NoDup (map fst (dD D)) ->
-    exists D', dfa_remove_unreachable_states D = Some D' /\ dfa_wf D' /\ dS D' = dS D /\
+  (* NoDup (map fst (dD D)) is needed only for dfa_wf D': see remove_unreachable_needs_unique_keys below *)
+  Lemma remove_unreachable_gen (D : dfa A) : dfa_wf D ->
+    exists D', dfa_remove_unreachable_states D = Some D' /\ (NoDup (map fst (dD D)) -> dfa_wf D') /\ dS D' = dS D /\
     (forall w, Forall (fun a => In a (dS D)) w -> (dfa_lang D' w <-> dfa_lang D w)) /\
     (forall p, In p (dQ D') -> exists w, Forall (fun a => In a (dS D)) w /\ dfa_path D' (dq0 D') w p).
   Proof.
-    intros Hwf Hnd. pose proof Hwf as [Hq0 [HF [Hd Ht]]].
+    intros Hwf. pose proof Hwf as [Hq0 [HF [Hd Ht]]].
     destruct (@reachable_states_correct D (dq0 D) 0 Hwf Hq0) as [R [ER HR]].
     unfold dfa_remove_unreachable_states. rewrite ER.
     set (D' := mkDFA R (dS D) (filter (fun e => mem (fst (fst e)) R) (dD D)) (dq0 D) (inter (dF D) R)).
@@ -762,7 +762,7 @@ Section S.
     { intros u w p Hp. induction Hp as [q|q a q1 w q2 Hdl Hp IH]; [constructor|].
       apply dp_cons with q1; [|exact IH]. rewrite Hdel in Hdl. destruct (mem q R); [exact Hdl | discriminate]. }
     split; [|split; [reflexivity|split]].
-    - unfold dfa_wf. cbn [D' dQ dS dD dq0 dF]. split; [exact HRq0|].
+    - intros Hnd. unfold dfa_wf. cbn [D' dQ dS dD dq0 dF]. split; [exact HRq0|].
       split; [intros x Hx; apply inter_In in Hx; tauto|]. split.
       + intros q a q1 Hi. apply filter_In in Hi. cbn [fst] in Hi. destruct Hi as [Hi Hm].
         apply mem_In in Hm. split; [exact Hm|]. split; [apply (Hd _ _ _ Hi)|].
@@ -775,6 +775,15 @@ Section S.
         apply inter_In. split; [exact Hf|]. apply HR. exists w. split; [exact Hw|]. split; [left; reflexivity | exact Hp].
     - intros p Hp. cbn [D' dQ] in Hp. cbn [D' dq0]. fold D'. apply HR in Hp. destruct Hp as [w [Hw [_ Hp]]].
       exists w. split; [exact Hw|]. apply Hfwd; [exact Hp | exact HRq0].
+  Qed.
+
+  Theorem remove_unreachable_correct (D : dfa A) : dfa_wf D -> NoDup (map fst (dD D)) ->
+    exists D', dfa_remove_unreachable_states D = Some D' /\ dfa_wf D' /\ dS D' = dS D /\
+    (forall w, Forall (fun a => In a (dS D)) w -> (dfa_lang D' w <-> dfa_lang D w)) /\
+    (forall p, In p (dQ D') -> exists w, Forall (fun a => In a (dS D)) w /\ dfa_path D' (dq0 D') w p).
+  Proof.
+    intros Hwf Hnd. destruct (remove_unreachable_gen Hwf) as [D' [E [Hw [HS [HL HR]]]]].
+    exists D'. split; [exact E|]. split; [exact (Hw Hnd)|]. split; [exact HS|]. split; [exact HL | exact HR].
   Qed.
 
   (* ---------------- no_extend ---------------- *)
@@ -847,3 +856,49 @@ Section S.
       rewrite <- drun_app, <- (dfa_lang_drun Hwf Hwv). apply Hall; assumption.
   Qed.
 End S.
+
+(* ---------- why the key-uniqueness hypothesis is needed for reverse / remove_unreachable ---------- *)
+(* A "dict" with a duplicated key (impossible in Python): lookup sees only the first entry, but the constructions
+   that iterate over all entries see both. *)
+Definition D_dupkey : dfa nat := mkDFA [0; 1] [5] [((0, 5), 0); ((0, 5), 1); ((1, 5), 1)] 0 [1].
+
+Lemma D_dupkey_wf : dfa_wf D_dupkey.
+Proof.
+  unfold dfa_wf, D_dupkey; cbn [dQ dS dD dq0 dF]. split; [left; reflexivity|].
+  split; [intros x [<-|[]]; right; left; reflexivity|]. split.
+  - intros q a q1 [E|[E|[E|[]]]]; inversion E; subst; cbn; auto.
+  - intros q a [<-|[<-|[]]] [<-|[]]; cbn; discriminate.
+Qed.
+
+Lemma reverse_needs_unique_keys :
+  dfa_wf D_dupkey /\ ~ In 2 (dQ D_dupkey) /\ ~ In 9 (dS D_dupkey) /\
+  exists N, dfa_reverse 2 9 D_dupkey = Some N /\ nfa_lang N [5] /\ ~ dfa_lang D_dupkey (rev [5]).
+Proof.
+  split; [exact D_dupkey_wf|].
+  split; [cbn; intros [Hc|[Hc|[]]]; discriminate|].
+  split; [cbn; intros [Hc|[]]; discriminate|].
+  eexists. split; [vm_compute; reflexivity|]. split.
+  - exists 0. split; [|left; reflexivity].
+    apply np_eps with 1; [cbn; auto|]. apply np_sym with 0; [cbn; auto | constructor].
+  - intros [qf [Hp Hf]]. apply dfa_path_run in Hp. cbn in Hp. inversion Hp; subst.
+    cbn in Hf. destruct Hf as [Hf|[]]. discriminate.
+Qed.
+
+Lemma remove_unreachable_needs_unique_keys :
+  dfa_wf D_dupkey /\ exists D', dfa_remove_unreachable_states D_dupkey = Some D' /\ ~ dfa_wf D'.
+Proof.
+  split; [exact D_dupkey_wf|]. eexists. split; [vm_compute; reflexivity|].
+  intros [_ [_ [Hd _]]]. specialize (Hd 0 5 1). cbn in Hd.
+  destruct Hd as [_ [_ [Hc|[]]]]; [right; left; reflexivity | discriminate].
+Qed.
+
+(* the main theorems take their automata explicitly *)
+Arguments complement_correct {A H} D _.
+Arguments product_correct {A B H H0} ptype D1 D2 _ _ _.
+Arguments make_total_correct {A H} trap D _ _.
+Arguments no_prefix_correct {A H} eps D _ _.
+Arguments reverse_correct {A H} fresh eps D _ _ _ _.
+Arguments reachable_states_correct {A H} D q depth _ _.
+Arguments remove_unreachable_gen {A H} D _.
+Arguments remove_unreachable_correct {A H} D _ _.
+Arguments no_extend_correct {A H} D _.
